@@ -21,11 +21,13 @@ from __future__ import annotations
 
 import gc
 import logging
+import os
 import queue
 import sys
 import threading
 import time
 import types
+from decimal import Decimal
 from unittest import mock
 
 import core
@@ -62,7 +64,8 @@ ASSUMPTIONS = ['provider constructed but not started (no sockets, no threads); w
                'loop-back soap client calls MessageConverterMiddleware.do_post directly',
                'the put timeout of the operation queue is shortened from 1 s to 1 ms']
 
-MDIB_FILE = '/repo/tests/mdib_tns.xml'
+REPO = os.environ.get('VERIF_REPO', '/repo')
+MDIB_FILE = REPO + '/tests/mdib_tns.xml'
 CTOR = {'Wait': 'wait', 'Start': 'start', 'Cnclld': 'cnclld', 'CnclldMan': 'cnclldMan', 'Fin': 'fin', 'FinMod': 'finMod',
         'Fail': 'fail'}
 FINALS = ['Cnclld', 'CnclldMan', 'Fin', 'FinMod', 'Fail']
@@ -74,8 +77,8 @@ def env():
     """lazy imports of the implementation (keeps `import props.c09` cheap for mkmanifest)"""
     if _env:
         return types.SimpleNamespace(**_env)
-    if '/repo' not in sys.path:
-        sys.path.insert(0, '/repo')
+    if REPO not in sys.path:
+        sys.path.insert(0, REPO)
     import sdc11073.definitions_sdc  # noqa: F401  (registers the protocol definitions)
     from sdc11073 import observableproperties
     from sdc11073.consumer import operations as c_ops
@@ -93,6 +96,15 @@ def env():
     logging.disable(logging.CRITICAL)
     _env.update(locals())
     return types.SimpleNamespace(**_env)
+
+
+def _case(ctx, canon, nontrivial=True, sample=None):
+    """ctx.case without the automatic sample (the evidence samples are chosen explicitly)"""
+    saved = ctx.max_samples
+    if sample is None:
+        ctx.max_samples = 0
+    ctx.case(canon, nontrivial, sample)
+    ctx.max_samples = saved
 
 
 # ------------------------------------------------------------------------------------------------ id lock (LTS)
@@ -309,7 +321,7 @@ def run_idlock(ctx):
         if ctx.tier == 'quick':
             full = [s for i, s in enumerate(full) if i % 4 == ctx.seed % 4]
         scheds += [(2, list(s)) for s in full]
-        for _ in range(ctx.n(150, 1500)):
+        for _ in range(ctx.n(100, 1500)):
             n = rng.randint(2, 6)
             scheds.append((n, [rng.randrange(n) for _ in range(rng.randint(0, n * n_act + 4))]))
     lines = []
@@ -329,8 +341,8 @@ def run_idlock(ctx):
         lines.append(f'lts {c0} {letter} {n} ' + ' '.join(map(str, granted)))
         impl = 'issued [' + ' '.join(f'{t}:{v}' for t, v in issued) + '] res [' + ' '.join('-' if r is None else str(r) for r in res) + f'] counter {counter}'
         cases.append((case, impl))
-        ctx.case({'lts': [n, granted]}, nontrivial=len(set(granted)) > 1,
-                 sample={'id-lock schedule': granted, 'ids': res} if len(cases) == 7 else None)
+        _case(ctx, {'lts': [n, granted]}, nontrivial=len(set(granted)) > 1,
+              sample={'id-lock: threads': n, 'granted schedule': granted, 'ids per thread': res} if len(cases) == 300 else None)
         ctx.count('lts:threads=%d' % n)
     if letter is None:
         ctx.disagree('generate_transaction_id trace is neither the locked nor the unlocked program of the model',
@@ -545,12 +557,12 @@ class Rig:
             st = mgr.get_state('numeric.ch0.vmd1')
             if st.MetricValue is None:
                 st.mk_metric_value()
-            st.MetricValue.Value = (st.MetricValue.Value or 0) + 1
+            st.MetricValue.Value = Decimal(st.MetricValue.Value or 0) + 1
         self.run_events(spec.get('in_handler', ()))
         out = spec['outcome']
         if out == 'raise':
             raise ValueError('verif: handler raises')
-        return self.e.ExecuteResult(params.operation_instance.operation_target_handle, self.e.msg_types.InvocationState(out))
+        return self.e.p_ops.ExecuteResult(params.operation_instance.operation_target_handle, self.e.msg_types.InvocationState(out))
 
     # ---- provider side capture
     def _on_sent(self, value):
@@ -736,6 +748,8 @@ class Rig:
 
     def drop(self, ci, fid):
         c = self.consumers[ci]
+        if fid not in c.futures:
+            return      # the call has not been made yet (it is nested in a handler that has not run)
         c.futures.pop(fid, None)
         for spec in self.calls.values():
             if spec['id'] == fid:
@@ -1181,7 +1195,7 @@ def consumer_case(ctx, crig, case, model_cases, tx, fid):
             if got != want:
                 ctx.fail('future:parts-missing', f'word {word}, response {rs} at {pos}, burst {burst}@{gap}: parts of the '
                          f'transaction {"before the response " if immediate_resp else ""}{want}, result {got}', sig_case)
-    ctx.case(case, nontrivial=fut.done())
+    _case(ctx, case, nontrivial=fut.done(), sample={**case, 'result parts (uids)': [p._verif_uid for p in fut.result().report_parts] if fut.done() else None, 'own uids': own_uids} if (case['burst'], case['pos'], case['gap'], len(word)) == (crig.maxlen - 1, 2, 1, 3) and word[-1] == 'FinMod' and case['fresh'] and not pack else None)
     ctx.count('consumer:resp-pos=%d' % pos)
     ctx.count('consumer:window-' + ('fits' if window_ok else 'overflows'))
     return fut
@@ -1298,7 +1312,7 @@ def run_consumer_random(ctx, model_cases):
             crig.finish()
             canon = {'consumer-script': [list(e) for e in script]}
             model_cases.append((canon, 'consumer(random)', crig.lines, crig.impl))
-            ctx.case(canon, nontrivial=any(f.done() for f in futs.values()), sample=canon if k == 0 else None)
+            _case(ctx, canon, nontrivial=any(f.done() for f in futs.values()), sample=canon if k == 0 else None)
     finally:
         crig.close()
 
@@ -1425,15 +1439,15 @@ def run(ctx):
     for name, modes, canon in fixed_scripts(ops, cap):
         events, specs = script_from_canon(canon)
         rig, c, done = run_script(ctx, events, specs, modes, model_cases)
-        ctx.case({'fixed': name}, nontrivial=done > 0,
-                 sample={'scenario': name, 'messages of the first transactions': rig.msgs[:8]} if name in ('queue-full', 'id-order-vs-dispatch-order') else None)
+        _case(ctx, {'fixed': name}, nontrivial=done > 0,
+              sample={'scenario': name, 'messages of the first transactions': rig.msgs[:8]} if name in ('queue-full', 'id-order-vs-dispatch-order') else None)
         ctx.count('scenario:' + name)
     rng = ctx.subrng('scripts')
-    for k in range(ctx.n(40, 500)):
+    for k in range(ctx.n(30, 500)):
         direct = {h: rng.random() < 0.4 for h in ops}
         events, specs = gen_script(rng, ops, cap, 2, rng.choice([3, 6, 12, 25]), maxlen)
         rig, c, done = run_script(ctx, events, specs, direct, model_cases)
-        ctx.case(c, nontrivial=done > 0)
+        _case(ctx, c, nontrivial=done > 0, sample={'random script': c, 'provider messages': rig.msgs[:12]} if k == 1 else None)
     ctx.notes['t_scripts_s'] = round(time.time() - t0, 1)
     # ---- 3. consumer orderings
     t0 = time.time()
